@@ -129,6 +129,28 @@ def histories(R, n):
     return hs
 
 
+def near_limit_histories(R, n):
+    """oracle-only: targets a hair inside / outside an axes limit (1e-12 ... 1e-8 of the limit's magnitude), printed with 12
+    decimals so that the emitted word shows on which side they are; absolute moves only (no accumulation)"""
+    from .builder_impl import show
+    hs = []
+    for _ in range(n):
+        r = R.rng
+        lo = [Fraction(r.randint(-300, 0)) for _ in range(3)]
+        hi = [l + Fraction(r.randint(1, 400)) for l in lo]
+        h = ["cfg dp=12", "boundsaxes " + " ".join(show(v) for v in lo + hi),
+             "setaxis " + " ".join(f"{a}={show((l + u) / 2)}" for a, l, u in zip("xyz", lo, hi))]
+        for _ in range(r.randint(2, 6)):
+            j = r.randrange(3)
+            lim = r.choice([lo[j], hi[j]])
+            eps = Fraction(r.choice([1, 2, 5]), 10 ** r.randint(8, 12)) * (1 + abs(lim)) * r.choice([1, 1, -1])
+            v = Fraction(float(lim + eps))               # the double the library receives
+            op = r.choice(["move", "move", "rapid", "moveabs", "rapidabs", "probe towards", "setaxis"])
+            h.append(f"{op} {'xyz'[j]}={show(v)}")
+        hs.append(h)
+    return hs
+
+
 def spelled(R, hs):
     """the same histories with the numbers handed over as numpy scalars and / or the parameter names in lower case"""
     out = []
@@ -210,6 +232,12 @@ def run(R: core.Run):
             R.count("tracer-in-a-box:" + ("some-segment-refused" if any("out=ValueError" in x for x in recs) else "all-inside"))
     finally:
         AXES_TOL["v"] = Fraction(0)
+    for h in near_limit_histories(R, R.n(150, 2500)):
+        lines, recs, im = bc.run_impl(h)
+        R.evaluations += 1
+        R.count("near-limit", "near-limit:rejections=%d" % min(3, sum(1 for x in recs if not x.startswith("out=ok"))))
+        for step, msg, tag in oracle(lines, recs, im):
+            R.fail({"history": bc.cfg_line(im) + lines[: step + 1]}, msg, tag=tag, step=step)
     if R.broken:
         R.search_batches += 1
         for h in histories(R, R.n(1200, 4000)) + spelled(R, histories(R, R.n(300, 1000))):
